@@ -271,12 +271,38 @@ fn driver(ctx: &mut Ctx, t: &Value) {
         "partial_hessian" => {
             let y = bits_of(&t["y"]);
             let (m, n2) = (x.len(), y.len());
+            let getters: std::cell::RefCell<Option<Value>> = std::cell::RefCell::new(None);
             macro_rules! ph {
                 ($m:literal, $n:literal) => {{
                     let (f, fx, fy, fxy) = partial_hessian(
                         |a: SVector<HyperDualSVec64<$m, $n>, $m>, b: SVector<HyperDualSVec64<$m, $n>, $n>| {
                             let all: Vec<_> = a.iter().chain(b.iter()).cloned().collect();
-                            integrand(&all, &ops)
+                            let res = integrand(&all, &ops);
+                            // what the part getters of the Python class return for the same probes
+                            let probes = [a[0].clone(), b[$n - 1].clone(), a[0].clone() * a[$m - 1].clone(), b[0].clone() * 2.0, res.clone()];
+                            let hx = |v: f64| Value::String(format!("{:016x}", v.to_bits()));
+                            let txt: Vec<Value> = probes
+                                .iter()
+                                .map(|p| {
+                                    let e1 = p.eps1.clone();
+                                    let e2 = p.eps2.clone();
+                                    let e12 = p.eps1eps2.clone();
+                                    let has = |present: bool, v: Value| if present { v } else { Value::Null };
+                                    let none1 = e1 == num_dual::Derivative::none();
+                                    let none2 = e2 == num_dual::Derivative::none();
+                                    let none12 = e12 == num_dual::Derivative::none();
+                                    let m1 = e1.unwrap_generic(nalgebra::Const::<$m>, nalgebra::Const::<1>);
+                                    let m2 = e2.unwrap_generic(nalgebra::Const::<1>, nalgebra::Const::<$n>);
+                                    let m12 = e12.unwrap_generic(nalgebra::Const::<$m>, nalgebra::Const::<$n>);
+                                    json!([
+                                        hx(p.re),
+                                        [has(!none1, Value::Array((0..$m).map(|i| hx(m1[i])).collect())), has(!none2, Value::Array((0..$n).map(|j| hx(m2[j])).collect()))],
+                                        has(!none12, Value::Array((0..$n).map(|j| Value::Array((0..$m).map(|i| hx(m12[(i, j)])).collect())).collect())),
+                                    ])
+                                })
+                                .collect();
+                            getters.borrow_mut().get_or_insert(Value::Array(txt));
+                            res
                         },
                         SVector::<f64, $m>::from_column_slice(&x),
                         SVector::<f64, $n>::from_column_slice(&y),
@@ -315,6 +341,16 @@ fn driver(ctx: &mut Ctx, t: &Value) {
             got = match st {
                 Some(o) => {
                     expect_class = Some("HyperDualVec64");
+                    // the part getters seen inside the callable (fixed-size classes only)
+                    if let (Some(want), Some(pyg)) = (getters.borrow().as_ref(), t.get("getters")) {
+                        if !pyg.is_null() && pyg != want {
+                            ctx.st.violation(Violation {
+                                sig: format!("driver partial_hessian getters m={m} n={n2}"),
+                                case: t.clone(),
+                                what: format!("the part getters of the elements handed to the callable return {pyg}, the Rust parts are {want}"),
+                            });
+                        }
+                    }
                     o
                 }
                 None => {
